@@ -506,6 +506,7 @@ fn point_code(p: Point) -> u8 {
         Point::InvalidateAllBefore => 4,
         Point::InvalidateAllAfter => 5,
         Point::InvalidateAllMid => 22,
+        Point::MaintenanceLoopIter => 23,
         Point::WriteBeforeSend => 6,
         Point::WriteBackoff(_) => 7,
         Point::TrySyncBeforeCas => 8,
